@@ -20,6 +20,19 @@ import (
 //  (c) with RecoverErrors(n) a valid input parses exactly as without.
 func init() { register("C11", c11) }
 
+// c11ParamExpExtra names a field of a ParamExp that is non-zero although no POSIX form sets it.
+func c11ParamExpExtra(x *syntax.ParamExp) string {
+	posix := map[string]bool{"Dollar": true, "Rbrace": true, "Short": true, "Length": true, "Param": true, "Exp": true,
+		"Excl": true, "Index": true, "Slice": true, "Repl": true, "Names": true, "Modifiers": true, "Flags": true, "NestedParam": true, "Width": true, "IsSet": true} // the second row is judged by the explicit cases above
+	v := reflect.ValueOf(x).Elem()
+	for i := 0; i < v.NumField(); i++ {
+		if n := v.Type().Field(i).Name; !posix[n] && !v.Field(i).IsZero() {
+			return n
+		}
+	}
+	return ""
+}
+
 // nonPosix reports the first Bash/mksh/Zsh-only construct found in the tree.
 func nonPosix(f *syntax.File) string {
 	found := ""
@@ -87,6 +100,10 @@ func nonPosix(f *syntax.File) string {
 				set("${!prefix*}")
 			case len(x.Modifiers) > 0 || x.Flags != nil || x.NestedParam != nil || x.Width || x.IsSet:
 				set("zsh/mksh parameter expansion form")
+			case c11ParamExpExtra(x) != "":
+				// allow-list: any ParamExp field outside the POSIX forms that is set (zsh's ${=a} ${~a} ${^a} …,
+				// and whatever is added later) — seeded change C11-3
+				set("parameter expansion field " + c11ParamExpExtra(x) + " set")
 			case x.Exp != nil && !posixParOps[x.Exp.Op.String()]:
 				set("parameter expansion operator " + x.Exp.Op.String())
 			}
@@ -178,6 +195,10 @@ var c11Targets = []string{
 	"for i; { :; }", "foo &!", "foo &|", "echo ${a:h}", "echo ${(f)a}", "echo ${+a}", "echo ${%a}", "echo ${|cmd;}", "echo ${ cmd;}", "[ a = b ]", "test -n x", "echo `a`", "echo $(a)", "echo ${a:-b} ${a%%x}",
 	"{ }", "f() { }", "( )", "if true; then\nfi", "while false; do\ndone", "for i in a; do\ndone", "case x in a) ;; esac", "if a; then b; else\nfi", "{ ; }",
 	"if [[ a ]]; then :; fi", "while ((1)); do :; done", "f() ((1))", "f() [[ a ]]", "echo $(( a[1] + b[x] ))", "echo \"${a[1]}\"", "echo $((x = a[0]))",
+	// every zsh/mksh/bash parameter-expansion prefix, flag and operator form, one per target (seeded change C11-3: ${=a} accepted as POSIX)
+	"echo ${=a}", "echo ${==a}", "echo ${~a}", "echo ${~~a}", "echo ${^a}", "echo ${^^a}", "echo \"${=^a}\"", "echo ${~a:-b}", "echo ${=a#x}", "echo ${a:u}", "echo ${a:t5:h2}",
+	"echo ${(s.:.)a}", "echo ${${a}}", "echo ${a:#x}", "echo ${a:|b}", "echo ${a:*b}", "echo ${a^}", "echo ${a,}", "echo ${a@U}", "echo ${a//x}", "echo ${a/#x/y}", "echo ${a:0}", "echo ${@:1:2}", "echo ${!a[@]}", "echo ${!a@}",
+	"echo $a[1]", "echo $#a", "echo ${#a[*]}", "x=${a:-${=b}}", "cat <<EOF\n${=a}\nEOF", "echo $((${=a}))",
 }
 
 func c11(c *Ctx) {
